@@ -39,6 +39,9 @@ def check(ctx):
     cg = CallGraph(repo)
     ctx.rule("C13-R1", "TABLE-AGREE(frame): encoder field order/format equals the decoder's exact reads; every read is readexactly; the receive routine is only ever awaited directly (no wait_for/timeout/task around a partial frame); one write per frame with no await between header and body")
     ctx.rule("C13-R2", "identity-tested module-level singletons survive pickling/copying by reference (__reduce__ returning the global's name)")
+    ctx.rule("C13-R6", "the server applies remote dictionary sets with klong[k] = v, exactly as a local assignment would: no store into the scope stack past the interpreter (the compiled-expression cache must see the rebinding)")
+    from ..common import check_writes_through_interpreter
+    check_writes_through_interpreter(ctx, repo, "C13-R6", (IPC,), "the IPC server and client")
     ctx.rule("C13-R3", "dispatch exhaustiveness: message classes constructed by clients are handled by the server; the server special-cases only message classes, everything else is evaluated as program text")
     ctx.rule("C13-R4", "ordering: the run loop awaits the listener, the listener awaits the command and sends exactly one reply per command with the request's id")
     ctx.rule("C13-R5", "remote handles are stateless per call: a function proxy is built from the response of this call and nothing is cached on the handle")
@@ -399,6 +402,7 @@ MUTATION_SCOPE = ['sys_fn_ipc:encode_message',
                   'types:KGUndefined.__reduce__']
 
 SEEDS = [
+    Seed("remote-dict-set-bypasses-setitem", "fault", IPC, "            klong[command.key] = command.value", "            klong._context[command.key] = command.value", rule="C13-R6"),
     Seed("dict-get-bypasses-interpreter-loop", "fault", IPC, "    klongloop.call_soon_threadsafe(asyncio.create_task, coroutine)\n",
          "    if isinstance(command, KGRemoteDictGetCall):\n        await coroutine\n    else:\n        klongloop.call_soon_threadsafe(asyncio.create_task, coroutine)\n", rule="C13-R4"),
     Seed("command-task-on-io-loop", "fault", IPC, "    klongloop.call_soon_threadsafe(asyncio.create_task, coroutine)\n", "    asyncio.create_task(coroutine)\n", rule="C13-R4"),
